@@ -209,3 +209,87 @@ func init() {
 		return Val{S: fmt.Sprintf("(pf_mergePatch %s %s)", args[0].S, args[1].S), Sort: "Blob"}, nil
 	}
 }
+
+// capturedSliceStores: if every store in the closure writes an element of a slice held in one of its free variables,
+// return those free-variable indexes; ok=false otherwise.
+func capturedSliceStores(fn *ssa.Function) (idx []int, ok bool) {
+	seen := map[int]bool{}
+	for _, b := range fn.Blocks {
+		for _, in := range b.Instrs {
+			switch in := in.(type) {
+			case *ssa.Store:
+				ia, isIA := in.Addr.(*ssa.IndexAddr)
+				if !isIA {
+					return nil, false
+				}
+				ld, isLd := ia.X.(*ssa.UnOp)
+				if !isLd {
+					return nil, false
+				}
+				fv, isFV := ld.X.(*ssa.FreeVar)
+				if !isFV {
+					return nil, false
+				}
+				for i, f := range fn.FreeVars {
+					if f == fv && !seen[i] {
+						seen[i] = true
+						idx = append(idx, i)
+					}
+				}
+			case ssa.CallInstruction:
+				if _, isB := in.Common().Value.(*ssa.Builtin); !isB {
+					return nil, false
+				}
+			case *ssa.MapUpdate, *ssa.Go, *ssa.Defer, *ssa.Send:
+				return nil, false
+			}
+		}
+	}
+	return idx, true
+}
+
+func init() {
+	// rand.Shuffle(n, swap): swap is called an arbitrary number of times. If swap only writes elements of slices it
+	// captured, exactly those backing arrays receive arbitrary content; otherwise its whole write set is havocked.
+	regLib("math/rand.Shuffle", func(x *FnExec, fr *frame, n *node, in ssa.Instruction, c *ssa.CallCommon, args []Val, reach, hint string) (Val, error) {
+		st := n.st
+		cl := args[1]
+		if cl.Fn != nil {
+			if idx, ok := capturedSliceStores(cl.Fn); ok {
+				for _, i := range idx {
+					cell := cl.Binds[i] // pointer to the captured slice variable
+					a := x.pointerAddr(cell)
+					if a == nil {
+						continue
+					}
+					sv := x.loadAddr(st, a)
+					slT, isSl := a.T.Underlying().(*types.Slice)
+					if !isSl {
+						continue
+					}
+					hn, hs := x.elemHeap(slT.Elem())
+					h := x.heapGet(st, hn, hs)
+					na := x.q.freshConst(hint+"_shuffled", fmt.Sprintf("(Array %s %s)", x.q.intSort(), x.q.sortOf(slT.Elem())))
+					x.heapSet(st, hn, hs, sto(h, "(s_arr "+sv+")", na))
+				}
+				x.trusted["rand.Shuffle: the swap callback only writes elements of slices it captured; those backing arrays get arbitrary content"] = true
+				return Val{T: resultType(in, c)}, nil
+			}
+			ws := map[string]bool{}
+			x.writeSetFn(cl.Fn, ws, map[*ssa.Function]bool{})
+			for h := range ws {
+				if _, ok := x.q.heaps[h]; ok {
+					x.heapHavoc(st, h)
+				}
+			}
+		}
+		return Val{T: resultType(in, c)}, nil
+	}).writes = func(x *FnExec, c *ssa.CallCommon, out map[string]bool) {
+		if mc, ok := c.Args[1].(*ssa.MakeClosure); ok {
+			x.writeSetFn(mc.Fn.(*ssa.Function), out, map[*ssa.Function]bool{})
+		}
+	}
+	// sort.Sort(x) where x is a named slice type: in-place permutation of that slice (Less/Swap not executed)
+	regLib("sort.Sort", libModels["sort.Slice"].apply).writes = libModels["sort.Slice"].writes
+	regLib("sort.Stable", libModels["sort.Slice"].apply).writes = libModels["sort.Slice"].writes
+}
